@@ -390,6 +390,14 @@ func funcValueLit(p *core.Program, fn *core.FuncRef, e ast.Expr) *ast.FuncLit {
 								k++
 							}
 						}
+						// a method used as a factory: its receiver stands for the value it was called on
+						if fr.Decl.Recv != nil && len(fr.Decl.Recv.List) == 1 && len(fr.Decl.Recv.List[0].Names) == 1 {
+							if sel, ok := core.Unparen(call.Fun).(*ast.SelectorExpr); ok {
+								if o := fr.Info().Defs[fr.Decl.Recv.List[0].Names[0]]; o != nil {
+									binds[o] = sel.X
+								}
+							}
+						}
 						setLitBinds(out, binds)
 					}
 				}
